@@ -996,6 +996,11 @@ def uf_apply(name, x):
         E.positive.add(gi)
         E.nonneg.add(gi)
         E.defs.append(E.zv(gi) > 0)
+    if name == 'log':
+        # sound facts about the real logarithm (keep solver models through the uninterpreted symbol close to replayable ones):
+        # 1 - 1/x <= log x <= x - 1 for x > 0, hence the sign of log x is the sign of x - 1
+        za, zg = E.r2z(x.re), E.zv(gi)
+        E.defs.append(z3.Implies(za > 0, z3.And(zg <= za - 1, zg * za >= za - 1)))
     out = Sym(Rat(Poly.varidx(gi)))
     E.uf_memo[key] = (x.re, out)
     E.gen_args[gi] = (name, x)
